@@ -21,6 +21,7 @@ import EdzedModel.Gen.TranslatedPersist
 import EdzedModel.Gen.TranslatedPersist2
 import Mathlib.Tactic.NormNum
 import Mathlib.Tactic.Linarith
+import Mathlib.Tactic.Ring
 
 namespace Edzed.Persist
 
@@ -1264,5 +1265,123 @@ theorem translated_persist_stop_without_faults (c : Circ) (t : Nat)
   rw [h]
   unfold Circ.stopBeginF Circ.stopBegin
   rcases hph with h | h | h <;> cases hs : c.startOk <;> simp [h, hs, saveAllF_nofault]
+
+/-! #### `utils/looptimes.py`: the conversion every saved / restored timer expiry goes through -/
+
+/-- `_get_timediff` IS the midpoint of the two Unix readings minus the loop reading taken between them; with the
+    readings of one instant it is the offset "wall clock minus loop clock" of the model's virtual wall clock -/
+theorem translated_looptimes_timediff_is_model (u1 l u2 : Rat) :
+    getTimediff u1 l u2 = (u1 + u2) / 2 - l ∧ getTimediff u1 l u1 = u1 - l := by
+  constructor <;> (simp only [getTimediff]; try ring)
+
+/-- direction of the two conversions: loop → Unix ADDS the difference, Unix → loop SUBTRACTS it; a given
+    `timediff` is used as it is, `None` means a fresh `_get_timediff()` -/
+theorem translated_looptimes_direction (x d u1 l u2 : Rat) :
+    loopToUnixtime x (some d) u1 l u2 = x + d ∧ unixToLooptime x (some d) u1 l u2 = x - d ∧
+    loopToUnixtime x none u1 l u2 = x + getTimediff u1 l u2 ∧
+    unixToLooptime x none u1 l u2 = x - getTimediff u1 l u2 := by
+  refine ⟨?_, ?_, ?_, ?_⟩ <;> (simp only [loopToUnixtime, unixToLooptime]; try ring)
+
+/-- `unix_to_looptime ∘ loop_to_unixtime = id` (and the other way round) for a fixed `timediff`, and for a fixed
+    triple of clock readings -/
+theorem translated_looptimes_roundtrip (x d u1 l u2 v1 m v2 : Rat) :
+    unixToLooptime (loopToUnixtime x (some d) u1 l u2) (some d) v1 m v2 = x ∧
+    loopToUnixtime (unixToLooptime x (some d) u1 l u2) (some d) v1 m v2 = x ∧
+    unixToLooptime (loopToUnixtime x none u1 l u2) none u1 l u2 = x := by
+  refine ⟨?_, ?_, ?_⟩ <;> (simp only [loopToUnixtime, unixToLooptime]; try ring)
+
+/-- a restored timer keeps its ABSOLUTE expiry: `get_state` saved `E = loop_to_unixtime(when)`; `_restore_state`
+    computes the remaining time on the SAME (Unix) clock, `remaining = E - time.time()`, and `call_later(remaining)` at
+    loop time `l'` creates a handle whose own `loop_to_unixtime` is `E` again — whatever the new loop's time base -/
+theorem translated_looptimes_restart_preserves_expiry (when_ u l u' l' : Rat) :
+    loopToUnixtime (l' + (loopToUnixtime when_ none u l u - u')) none u' l' u' = loopToUnixtime when_ none u l u := by
+  simp only [loopToUnixtime, getTimediff]; ring
+
+/-- the model's virtual wall clock is "loop clock + offset": the saved expiry of a handle due at loop time `when_` is
+    the model's absolute wall-clock expiry `when_ + off` -/
+theorem translated_looptimes_is_model_wall_clock (when_ l off : Rat) :
+    loopToUnixtime when_ none (l + off) l (l + off) = when_ + off := by
+  simp only [loopToUnixtime, getTimediff]; ring
+
+/-! #### `AddonPersistence.__init__` -/
+
+/-- the translated constructor IS the model's `mkBlk`: truthiness of `persistent` / `sync_state`, `time_period` of
+    `expiration` (which may refuse the value), the key -/
+theorem translated_persist_init_is_model (key : String) (kind : Persist.Kind) (p sy e : Val) (link : Option Link) :
+    (persistInit TimeUnits.timePeriod (.ok ()) key p sy e).map
+        (fun a => (a.key, a.persistent, a.sync_state, a.expiration.map usOf))
+      = (mkBlk key kind { persistent := p, syncState := sy, expiration := e } link).map
+        (fun b => (b.key, b.persistent, b.sync, b.expiration)) := by
+  unfold persistInit mkBlk
+  cases h : TimeUnits.timePeriod e <;> rfl
+
+/-- the defaults of the signature are the model's: not persistent, sync_state on, no expiration -/
+theorem translated_persist_init_defaults (key : String) :
+    persistInitDefaults = (({} : PArgs).persistent, ({} : PArgs).syncState, ({} : PArgs).expiration) ∧
+    (persistInit TimeUnits.timePeriod (.ok ()) key persistInitDefaults.1 persistInitDefaults.2.1
+      persistInitDefaults.2.2).map (fun a => (a.persistent, a.sync_state, a.expiration)) = .ok (false, true, none) := by
+  constructor <;> rfl
+
+/-- `expiration` None, 0 (or less) and a positive duration are kept apart: None stays None (never expires), a number
+    `≤ 0` becomes 0 (the saved state is always disregarded), a positive number of seconds is kept -/
+theorem translated_persist_init_expiration_kinds (key : String) (p sy : Val) (q : Rat) (k : Edzed.Kind) (ts : Option Time)
+    (now : Time) :
+    (persistInit TimeUnits.timePeriod (.ok ()) key p sy Val.none).map (·.expiration) = .ok none ∧
+    (q ≤ 0 → (persistInit TimeUnits.timePeriod (.ok ()) key p sy (.atom (.num q k))).map (·.expiration) = .ok (some 0)) ∧
+    (0 < q → (persistInit TimeUnits.timePeriod (.ok ()) key p sy (.atom (.num q k))).map (·.expiration) = .ok (some q)) ∧
+    expired none ts now = false ∧ expired (some (usOf 0)) ts now = true := by
+  refine ⟨rfl, ?_, ?_, rfl, ?_⟩
+  · intro hq
+    have : TimeUnits.timePeriod (.atom (.num q k)) = .ok (some 0) := by
+      have h : TimeUnits.timePeriod (.atom (.num q k)) = .ok (some (if q < 0 then 0 else q)) := rfl
+      rw [h]
+      by_cases h0 : q < 0
+      · rw [if_pos h0]
+      · have : q = 0 := le_antisymm hq (not_lt.mp h0)
+        rw [if_neg h0, this]
+    simp only [persistInit, this]; rfl
+  · intro hq
+    have : TimeUnits.timePeriod (.atom (.num q k)) = .ok (some q) := by
+      have h : TimeUnits.timePeriod (.atom (.num q k)) = .ok (some (if q < 0 then 0 else q)) := rfl
+      rw [h, if_neg (not_lt.mpr (le_of_lt hq))]
+    simp only [persistInit, this]; rfl
+  · have h0 : usOf 0 = 0 := by decide +kernel
+    rw [h0]; simp [expired]
+
+/-- a value `time_period` refuses makes the constructor raise BEFORE `super().__init__` is reached -/
+theorem translated_persist_init_refusal_comes_first (key : String) (p sy e : Val) (err : TimeUnits.PErr)
+    (h : TimeUnits.timePeriod e = .error err) (superInit : Except TimeUnits.PErr Unit) :
+    (persistInit TimeUnits.timePeriod superInit key p sy e).map (fun _ => ()) = .error err := by
+  simp [persistInit, h, bind, Except.bind, Except.map]
+
+/-- `persistent=False` (any falsy value, and the default): no key is ever written — neither by
+    `save_persistent_state` nor by the event wrapper, on any storage -/
+theorem translated_persist_not_persistent_never_writes (key : String) (p sy e : Val) (a : PersistAttrs)
+    (h : persistInit TimeUnits.timePeriod (.ok ()) key p sy e = .ok a) (hp : p.truthy = false)
+    (f : Faults) (b : Blk) (st : Option Entry) (g w r sr ready ini : Bool) (s : Storage) :
+    a.persistent = false ∧
+    runSave key st (saveActs a.persistent g w r) (s, false) = (s, false) ∧
+    (runEvent f b (eventActs false a.persistent ready a.sync_state ini sr) ⟨a.persistent, s, false⟩).store = s := by
+  have ha : a.persistent = false := by
+    unfold persistInit at h
+    cases ht : TimeUnits.timePeriod e with
+    | error x => rw [ht] at h; simp [bind, Except.bind] at h
+    | ok x =>
+      rw [ht] at h
+      simp only [bind, Except.bind, pure, Except.pure, Except.ok.injEq] at h
+      rw [← h]; exact hp
+  refine ⟨ha, ?_, ?_⟩
+  · rw [ha]; simp [saveActs, runSave]
+  · rw [ha]; simp [eventActs, runEvent]
+
+/-- `InputExp.on_enter_expired` removes `sdata['input']` — the method exists, but no FSM hook of that name is ever
+    looked up (`enter_expired` would be): the model never applies it, as the correspondence confirms -/
+theorem translated_inputexp_on_enter_expired_is_model (sd : Data) :
+    inputExpOnEnterExpired sd = sd.erase "input" := rfl
+
+/-- non-vacuity: a concrete constructor call -/
+example : (persistInit TimeUnits.timePeriod (.ok ()) "<Input 'i'>" (Val.int 1) (Val.str "") (Val.flt (-3/2))).map
+    (fun a => (a.persistent, a.sync_state, a.expiration)) = .ok (true, false, some 0) := by
+  decide +kernel
 
 end Edzed.TrTie
